@@ -594,16 +594,28 @@ def gen_pending(scn, rng, depth):
     return hist
 
 
+# fields of a recorded line that only the scheduler-level trace spec reads (the
+# bulk of a line): dropped at once for the master-level checks, which record
+# tens of thousands of lines in the thorough tier
+_SCHED_ONLY = ('post', 'queues', 'placement', 'declared', 'oprio', 'loaded_sched', 'decl_allocs',
+               'spells', 'obs_down', 'obs_frozen', 'obs_marks', 'obs_marks_unknown', 'tb')
+
+
 def _rec_one(args):
-    scn_name, k, h = args
+    scn_name, k, h = args[:3]
     lines = master_l2.replay(SCENARIOS[scn_name], h)
+    if len(args) > 3 and args[3]:
+        lines = [{f: v for f, v in l.items()
+                  if f not in _SCHED_ONLY and not (f == 'decl_apps' and l.get('ev') not in ('Restart', 'CrashRestart'))}
+                 for l in lines]
     return dict(tid='%s:%d' % (scn_name, k), lines=lines, history=h)
 
 
-def record(scn_name, histories, procs=None):
+def record(scn_name, histories, procs=None, slim=False):
     """Replay every history on the real Master (in worker processes: each
-    replay is independent and CPU-bound)."""
-    jobs = [(scn_name, k, h) for k, h in enumerate(histories)]
+    replay is independent and CPU-bound).  slim: keep only what MasterTrace.tla /
+    MasterLagTrace.tla read."""
+    jobs = [(scn_name, k, h, slim) for k, h in enumerate(histories)]
     procs = procs or min(12, max(1, len(jobs) // 8))
     if procs <= 1 or os.environ.get('VERIF_SERIAL'):
         return [_rec_one(j) for j in jobs]
